@@ -28,7 +28,10 @@ class C01(BaseMonitor):
 
     def next_op(self, i):
         r = self.k.rng("op", i)
-        hist = [h for h in getattr(self, "history", []) if h["obj"] in self.sim.spec["objs"]]
+        # (the list of usage patterns of the system is not undone by plain re-assignment: that would leave a usage
+        # pattern on a used journey outside the system, a description the library cannot build - envelope W4)
+        hist = [h for h in getattr(self, "history", []) if h["obj"] in self.sim.spec["objs"]
+                and self.sim.spec["objs"][h["obj"]]["cls"] != "System"]
         if hist and r.random() < 0.1:
             # undo: re-assign the value an input (or link, or list) had before one of the last accepted edits
             h = hist[-1] if r.random() < 0.6 else r.choice(hist)
@@ -77,6 +80,13 @@ class C01(BaseMonitor):
             raise Violation("C01", "hang", {op_kind(op)}, f"accepted edit does not return (> watchdog) in {ret.site}",
                             i, op_kind(op))
         if status == "raised":
+            if crash_site(ret) is None and type(ret).__name__ in ("AttributeError", "KeyError", "TypeError", "IndexError",
+                                                                  "AssertionError", "RecursionError"):
+                # neither a refusal by validation (ValueError / PermissionError) nor an update function that cannot
+                # cope with the new inputs: the update machinery itself crashes on an edit it accepted
+                raise Violation("C01", "accepted_edit_crashes_in_the_engine", {f"{op_kind(op)}:{type(ret).__name__}"},
+                                f"{op_kind(op)} on {op.get('obj')}.{op.get('attr')} raises {type(ret).__name__}: "
+                                f"{str(ret)[:200]}", i, op_kind(op))
             # not an accepted edit: C01 says nothing; the live world may be half-updated, so the run ends
             self.res.count("ended_on_raise:" + type(ret).__name__)
             self.stop = "op_raised"
@@ -658,6 +668,13 @@ class C14(FaultMonitorMixin, BaseMonitor):
             return "accepted"
         self.res.count("refused:" + type(ret).__name__)
         if construct:
+            ghosts = getattr(ret, "efsim_ghost_links", None)
+            if ghosts:
+                # "refused at construction": the objects that the half-built object was given must not report it
+                raise Violation("C14", "refused_construction_left_links", {fault},
+                                f"constructing {op['like']}-like object with {op['fault']} raised {type(ret).__name__} "
+                                f"but these objects still list the half-built object among their users: {ghosts[:6]}",
+                                i, op_kind(op))
             return "refused"
         in_recomputation = raised_in_update_function(ret)
         if in_recomputation and not op["strong"]:
